@@ -109,7 +109,8 @@ def run_split(prop, tier, seed, only, cfgs, meta, what):
                        "undecided": ["%s: %s" % x for x in und[:20]], "tree_hash": core.tree_hash(), "exhaustive": False,
                        "checker_cmd": "cbmc 6.11.0 (MiniSat) driven by vk/split.py"},
           "assumptions": meta["assumptions"], "wall_s": round(wall, 1), "violations": len(violations)}
-    with open(os.path.join(core.EVIDENCE, prop + ".json"), "w") as f:
+    ev_path = os.path.join(core.EVIDENCE, prop + ".json") if not only else os.path.join(core.BUILD, prop + ".partial-evidence.json")
+    with open(ev_path, "w") as f:
         json.dump(ev, f, indent=1)
     print("SUMMARY property=%s tier=%s configs=%d queries=%d violated=%d undecided=%d wall=%.0fs" % (prop, tier, len(cfgs), nq, len(violations), len(und), wall))
     return 1 if violations else 0
